@@ -8,10 +8,14 @@ EfiSizes == IF EfiSizeSet = {} THEN 0..MaxD ELSE EfiSizeSet     \* a chosen set 
 \* atEnd: the map tag is the last one before the end tag, so that reading a descriptor that overlaps the end of the
 \* tag by more than 8 bytes leaves the region (and faults on the guard page)
 EfiParamsSet == UNION { { [d |-> d, v |-> v, L |-> L, atEnd |-> e] : L \in 0..Min(3 * d + 9, LCap), e \in BOOLEAN } : d \in EfiSizes, v \in {0, 1, 2} }
-EfiTag(p) == Override(Override(RawTag(17, 16 + p.L, IF "z" \in DOMAIN p THEN p.z ELSE 0), 8, U32Bytes(p.d)), 12, U32Bytes(p.v))
+EfiTag(p) == Override(Override(RawTag(17, 16 + p.L, IF "z" \in DOMAIN p THEN p.z ELSE 0), 8, IF "dB" \in DOMAIN p THEN p.dB ELSE U32Bytes(p.d)), 12, U32Bytes(p.v))
 \* z: maps whose descriptors are all zeros / all ones (a page count of 0 is a descriptor like any other)
 EfiParamsZ == { [d |-> d, v |-> 1, L |-> d * k, atEnd |-> FALSE, z |-> z] : d \in {40, 48} \cap EfiSizes, k \in 0..3, z \in {2, 3} }
-EfiParamsAll == EfiParamsSet \cup EfiParamsZ
+\* descriptor sizes near the top of 32 bits (as bytes; d is their saturated value): valid with an empty map
+EfiParamsBig == { [d |-> Far, dB |-> b, v |-> 1, L |-> 0, atEnd |-> FALSE]
+                  : b \in {<<40, 0, 0, 128>>, <<248, 255, 255, 255>>, <<0, 0, 0, 64>>, <<40, 0, 0, 64>>} }
+                \cup { [d |-> Far, dB |-> <<44, 0, 0, 128>>, v |-> 1, L |-> 0, atEnd |-> FALSE] }       \* ... and an invalid one (not a multiple of 8)
+EfiParamsAll == EfiParamsSet \cup EfiParamsZ \cup EfiParamsBig
 EfiNaive(p) == Min(IF p.d = 0 THEN 4 ELSE p.L \div p.d, 4)
 EfiCase(p) ==
   [mem |-> InfoImage(IF p.atEnd THEN <<Neighbour, EfiTag(p)>> ELSE <<EfiTag(p), Neighbour>>), al |-> 0,
